@@ -29,7 +29,7 @@ class SimPub(object):
             body = body.decode('utf8')
         try:
             obj = json.loads(body)
-        except ValueError:
+        except (ValueError, RecursionError):
             obj = body
         seq = sim.rec('event', topic, body if len(body) < 200 else body[:200])
         self.sent.append((seq, sim.now, topic, obj))
@@ -348,7 +348,7 @@ class SimContext(object):
         raw = parts[1] if len(parts) > 1 else b''
         try:
             obj = json.loads(raw)
-        except ValueError:
+        except (ValueError, RecursionError):
             obj = None
         seq = sim.rec('reply', cid if isinstance(cid, bytes) else repr(cid),
                       raw[:160])
